@@ -46,7 +46,7 @@ EXTENDS Integers, Sequences, FiniteSets, TLC, Emit, Cyc2
 CONSTANTS Configs,   \* set of <<N, cp, u>> for which pipeline cases are generated
           MapFfts,   \* set of fft sizes whose index map is checked alone (for every even u <= N)
           ParamFfts, \* set of fft sizes for which parameter validation is checked (cp -1..N+1, u 0..N+2)
-          LenMode,   \* "one" | "two" | "three" | "all" : data lengths {2u+1} | {u-1, 2u+1} | + 2u | 1..2u+1
+          LenMode,   \* "isi" | "two" | "three" | "all" : data lengths {u+1} | {u-1, 2u+1} | + 2u | 1..2u+1
           PatMode,   \* "dense" | "basis"       : + all unit patterns at the longest length
           NDense,    \* number of pseudo-random dense data patterns per length
           LayMode,   \* "none" | "one" | "three" | "basis" | "all3" : tap layouts per configuration
@@ -115,7 +115,7 @@ Rnd(k, i)   == LcgIter(LcgStart(Seed, k), i)
 
 Lengths(u) == IF LenMode = "all" THEN 1..(2 * u + 1)
               ELSE IF LenMode = "three" THEN {u - 1, 2 * u, 2 * u + 1}
-              ELSE IF LenMode = "one" THEN {2 * u + 1} ELSE {u - 1, 2 * u + 1}
+              ELSE IF LenMode = "isi" THEN {u + 1} ELSE {u - 1, 2 * u + 1}
 Patterns(u, L) == {<<"dense", s, 0>> : s \in 0..(NDense - 1)}
                   \cup (IF PatMode = "basis" /\ L = 2 * u + 1
                           THEN {<<"unit", j, v>> : j \in 1..L, v \in 1..2} ELSE {})
@@ -365,7 +365,10 @@ OneTapExact == pc = "eq" =>
                                                 /\ eq[j].num = CyMul(eq[j].den, CG(padded[j]))
 
 (* ============================================ emission ========================================== *)
-\* what the step that led to the current state produced (read primed from the ACTION_CONSTRAINT)
+\* What the step that led to the current state produced.  Emission is a state predicate (always TRUE) listed
+\* as an INVARIANT: TLC evaluates it once per distinct state, after the state has been fingerprinted, i.e. on
+\* concrete values (as an ACTION_CONSTRAINT on primed variables the lazily built sequences were re-evaluated
+\* element by element by ToJson: 30 ms per edge instead of 3).
 StepOut ==
     CASE pc = "input"   -> [data |-> data]
       [] pc = "mapcase" -> [idx |-> UsedIdx(N0, U)]
@@ -387,7 +390,8 @@ StepOut ==
                                             IN  [j \in 1..Len(dem) |-> [num |-> dem[j], den |-> EqDen(H, j)]]
                                        ELSE <<>>]
       [] OTHER          -> [none |-> 0]
-Emit == EmitEdge([step |-> pc', id |-> <<cfg'.N, cfg'.cp, cfg'.u, cfg'.L, cfg'.pat>>, ch |-> chan',
-                  sc |-> sc', ps |-> PowerScale(cfg'.N, cfg'.cp, cfg'.u), exact |-> Exact(cfg'.N),
-                  out |-> StepOut'])
+Emit == pc # "idle" =>
+        EmitEdge([step |-> pc, id |-> <<cfg.N, cfg.cp, cfg.u, cfg.L, cfg.pat>>, ch |-> chan,
+                  sc |-> sc, ps |-> PowerScale(cfg.N, cfg.cp, cfg.u), exact |-> Exact(cfg.N),
+                  out |-> StepOut])
 =============================================================================
